@@ -553,7 +553,7 @@ Op stageOp(Rng &r, int stage, bool cb, bool reordering, bool owInBand) {
 Op perturbOp(Rng &r, int H) {
   Op op;
   op.kind = OP_PERTURB;
-  op.args = {(long long)r.below(5), (long long)r.below(1000000), (long long)std::max(1, H) * r.range(1, 4)};
+  op.args = {(long long)r.below(7), (long long)r.below(1000000), (long long)std::max(1, H) * r.range(1, 4)};
   return op;
 }
 
@@ -782,6 +782,22 @@ Plan genDetailed(const std::string &profile, uint64_t seed, int tier) {
   return p;
 }
 
+// A callback that legally changes cell widths during global placement (CB_RESIZE mode 1: movable
+// cells, mode 2: every cell; see exec_circuit.cpp).  Drawn from its own stream.
+void maybeRealResize(Rng &rr, Op &op, double prob, double movableOnly) {
+  if (op.kind != OP_GLOBAL || op.params.byEffort || !rr.chance(prob)) return;
+  int n = rr.chance(0.3) ? 2 : 1;
+  for (int j = 0; j < n; ++j) {
+    CbAction a;
+    a.k = (int)rr.range(0, 10);
+    a.kind = CB_RESIZE;
+    long long mode = rr.chance(movableOnly) ? 1 : 2, amount = (long long)rr.below(3);
+    a.arg = (long long)rr.below(2) | ((mode + 3 * amount) << 1);
+    op.cb = 1;
+    op.actions.push_back(a);
+  }
+}
+
 Plan genGlobal(const std::string &profile, uint64_t seed, int tier) {
   Rng r(seed);
   Plan p = base(profile, seed);
@@ -797,6 +813,8 @@ Plan genGlobal(const std::string &profile, uint64_t seed, int tier) {
     p.ops.push_back(perturbOp(ro, b.H));
     p.ops.push_back(stageOp(ro, 0, ro.chance(0.85), false, true));
   }
+  Rng rr = r.fork("resize");
+  for (auto &op : p.ops) maybeRealResize(rr, op, 0.15, 0.85);
   tame(p, cfg);
   return p;
 }
@@ -853,6 +871,9 @@ Plan genFrame(const std::string &profile, uint64_t seed, int tier) {
     if (ro.chance(0.2)) p.ops.push_back(perturbOp(ro, b.H));
     if (ro.chance(0.12)) p.ops.push_back(clientOp(ro));
   }
+  Rng rr = r.fork("resize");
+  for (auto &op : p.ops)
+    if (op.actions.empty()) maybeRealResize(rr, op, 0.3, 0.4);
   tame(p, cfg);
   return p;
 }
@@ -1118,6 +1139,22 @@ Plan genBadCalls(const std::string &profile, uint64_t seed, int tier) {
       Op c;
       c.kind = OP_CHECK;
       p.ops.push_back(c);
+    }
+  }
+  {
+    // the client spoils the parameter object of a call from inside one of its callbacks
+    Rng rp = r.fork("poison");
+    for (auto &op : p.ops) {
+      if ((op.kind != OP_GLOBAL && op.kind != OP_LEGALIZE && op.kind != OP_DETAILED) || op.enumThrow || op.params.byEffort ||
+          !rp.chance(0.35))
+        continue;
+      op.actions.clear();  // instead of the malformed calls drawn above
+      CbAction a;
+      a.k = (int)rp.range(0, op.kind == OP_GLOBAL ? 6 : 2);
+      a.kind = CB_BADPARAMS;
+      a.arg = (long long)rp.below(6);
+      op.cb = 1;
+      op.actions.push_back(a);
     }
   }
   tame(p, cfg);
